@@ -164,9 +164,6 @@ func VerifC14MirrorSchema() {
 	vObserve("edit", e)
 	vObserve("focus", focus)
 	vCover("built")
-	if vKnown("C14-D21", t == 2 && e == 10) {
-		return
-	}
 	ab, _ := Compare(vSpecBoth(rootA, defsA, 0), vSpecBoth(rootB, defsB, 0))
 	ba, _ := Compare(vSpecBoth(rootB, defsB, 0), vSpecBoth(rootA, defsA, 0))
 	vCheckMirror(ab, ba)
@@ -303,4 +300,44 @@ func VerifC14MirrorHeader() {
 	ab, _ := Compare(a, b)
 	ba, _ := Compare(b, a)
 	vCheckMirror(ab, ba)
+}
+
+func init() { vRegister("VerifC14DiffsTo", VerifC14DiffsTo) }
+
+// C14 at the list differ behind tags, consumes/produces/schemes and enum values: what is added
+// going from one list to the other is what is deleted going back (as sets; a list may hold the
+// same text twice - enum values are compared by their printed text, "2" and 2 print alike), and
+// the common part is the same both ways.
+func VerifC14DiffsTo() {
+	pick := func(tag string) []string {
+		n := vChoice(tag+".len", 4)
+		if n == 0 && vBool2(tag+".nil") {
+			return nil
+		}
+		out := []string{}
+		for i := 0; i < n; i++ {
+			out = append(out, []string{"a", "b"}[vChoice(tag+".item", 2)])
+		}
+		return out
+	}
+	set := func(l []string) [2]bool {
+		var s [2]bool
+		for _, w := range l {
+			s[int(w[0]-'a')] = true
+		}
+		return s
+	}
+	from, to := pick("from"), pick("to")
+	ad1, de1, co1 := fromStringArray(from).DiffsTo(to)
+	ad2, de2, co2 := fromStringArray(to).DiffsTo(from)
+	vCover("compared")
+	vAssert(set(ad1) == set(de2), "entries added one way are not the entries deleted the other way")
+	vAssert(set(de1) == set(ad2), "entries deleted one way are not the entries added the other way")
+	vAssert(set(co1) == set(co2), "the common entries differ between the two directions")
+	// and they are what the two lists say
+	sf, st := set(from), set(to)
+	for i := 0; i < 2; i++ {
+		vAssert(set(ad1)[i] == (st[i] && !sf[i]), "an entry is reported as added although the old list has it (or not reported although it is new)")
+		vAssert(set(de1)[i] == (sf[i] && !st[i]), "an entry is reported as deleted although the new list has it (or not reported although it is gone)")
+	}
 }
